@@ -470,6 +470,11 @@ def tuplify(rng, t, p, pos='elem', top=True):
     return new
 
 
+def bundle_heads_encoded(t):
+    """True (conservatively) when the tree is well shaped enough that every numeric list head is a bundle time that gets encoded"""
+    return documented(pyval(t), 'msg' if (t and isinstance(t[0], dict) and 's' in t[0]) else 'bundle') is True
+
+
 def build_cases(ctx):
     rng = ctx.rng
     cases = []
@@ -501,7 +506,11 @@ def build_cases(ctx):
         add('msg', [S('/x'), [None, [S('/y'), v]]], 'falsy_in_bundle_blob')
         add('bundle', [Fl(0.2), [S('/x'), v]], 'falsy_in_bundle')
         add('bundle', [I(0), [S('/a'), I(1)], [Fl(0.0), [S('/x'), v, I(1)], [S('/b'), v]]], 'falsy_in_nested_bundle')
-    times = [None, False, True, I(0), Fl(0.0), Fl(-0.0), I(1), Fl(-1.0), Fl(0.5), I(-1)]
+    # ... and the range boundary of the 64-bit time tag reached through the latency (base interface: now + latency in
+    # seconds since 1900 reaches 2^32 at 381911296 s with the offset the runner installs; NRT: latency 2^32 s)
+    times = [None, False, True, I(0), Fl(0.0), Fl(-0.0), I(1), Fl(-1.0), Fl(0.5), I(-1),
+             Fl(381911293.5), Fl(381911294.5), Fl(381911295.75), Fl(381911296.0), I(381911296), Fl(381911297.0), Fl(4294967295.5), Fl(4294967296.0),
+             I(2 ** 32), Fl(1e10), I(10 ** 10), I(2 ** 70), Fl(-1e10)]
     for t in times:
         for itf in ('nrt', 'base'):
             for st in (0.0, 1.5):
@@ -510,8 +519,9 @@ def build_cases(ctx):
                     cases[-1].update({'itf': itf, 'send_time': st, 'ctx': cx})
         add('msg', [S('/x'), [t, [S('/y')]], I(2)], 'time_in_bundle_blob')
         add('bundle', [t], 'time_empty_bundle')
-        for t2 in times:
-            add('bundle', [t, [S('/a')], [t2, [S('/b'), I(0)]]], 'time_nested')
+        for t2 in times[:10] + [Fl(381911296.0), Fl(1e10)]:
+            if times.index(t) < 10 or t2 in (Fl(381911296.0), Fl(1e10)):
+                add('bundle', [t, [S('/a')], [t2, [S('/b'), I(0)]]], 'time_nested')
     # lengths around 127/128/255/256 (strings, blobs, addresses, number of arguments)
     for n in (127, 128, 129, 255, 256, 257):
         add('msg', [S('/s'), S('a' * n)], 'len_edge_str')
@@ -808,6 +818,10 @@ def site_cases(ctx):
     for kind_, lim_ in (('clumped', MAX_UDP), ('sync', MAX_UDP - SYNC)):
         for tot in (lim_ - 1500, lim_ + 1500):
             cases.append({'kind': kind_, 'time': Fl(0.2), 'els': elems(2000, tot, tuples=True), 'via': 'direct', 'cls': kind_ + '_tuple_elements'})
+    for t_ in (Fl(381911295.0), Fl(381911296.0), Fl(1e10), I(2 ** 40)):
+        cases.append({'kind': 'clumped', 'time': t_, 'els': elems(30, 200), 'via': 'direct', 'cls': 'latency_range', 'may_refuse': True})
+        cases.append({'kind': 'sync', 'time': t_, 'els': elems(30, 200), 'via': 'direct', 'cls': 'latency_range', 'may_refuse': True})
+    cases.append({'kind': 'dsend', 'L': 100, 'comp': [Fl(1e10), [S('/s_new'), S('x'), I(-1)]], 'via': 'send', 'cls': 'latency_range', 'may_refuse': True})
     cases.append({'kind': 'sync', 'time': None, 'els': [], 'via': 'direct', 'cls': 'sync_empty'})
     cases.append({'kind': 'clumped', 'time': None, 'els': [[None, [S('/a'), I(1)]], [S('/b')]], 'via': 'direct', 'cls': 'clumped_nested_none'})
     return cases
@@ -859,6 +873,19 @@ def check_sites(ctx, c):
         for call in calls:
             if call.get('error'):
                 fail('C06:site_error', 'use site %s: %s raised %s' % (k['kind'], call['method'], call['error']), k, {'observed': call['error']}, None)
+        # the time tags of what is handed to the interface, by the documented rule (base-class interface of the monitor)
+        for call in calls:
+            if call['method'] != 'send_bundle':
+                continue
+            want = []
+            expected_tags('base', float(call.get('st', 0.0)), call['args'], want)
+            got_tags = call.get('tags', [])
+            if call.get('dgrams') and [str(w) for w in want] != got_tags and not any(t.startswith('raise') for t in got_tags):
+                fail('C06:timetag', '%s: _get_timetag gives %s for the bundle handed over with latency %s, expected %s'
+                     % (k['kind'], got_tags[:3], show(call['args'][0]), [str(w) for w in want][:3]), k, {'latency': show(call['args'][0])}, 'bundle_roundtrip')
+            if call.get('dgrams') and any(not 0 <= w < 2 ** 64 for w in want):
+                fail('C06:unrepresentable_accepted', '%s sent a bundle whose latency %s has no 64-bit time tag (%s): it must be refused'
+                     % (k['kind'], show(call['args'][0]), [w for w in want if not 0 <= w < 2 ** 64][0]), k, {'latency': show(call['args'][0])}, 'unrepresentable_refused')
         # what every use site must guarantee for each datagram it really sent
         for call in calls:
             for d in call.get('dgrams', []):
@@ -1097,6 +1124,10 @@ def correspond(ctx):
                                           % (k.get('itf', 'nrt'), 'inside a routine' if k.get('ctx') == 'routine' else 'the main thread', k.get('send_time', 0.0), bad[0][1] if bad else tags, show(k['v']), bad[0][0] if bad else want),
                                           signature='C06:timetag', found_input=True, theorem='bundle_roundtrip',
                                           replay={'check': 'timetag', 'case': k, 'observed': tags, 'expected': [str(x) for x in want]}))
+        if k['kind'] != 'rawbundle' and o['build'][0] == 'ok' and any(not 0 <= w < 2 ** 64 for w in want) and bundle_heads_encoded(k['v']):
+            c.failures.append(Failure('correspondence', 'a latency whose time tag does not fit 64 bits (%s) is accepted and sent altered: %s'
+                                      % ([w for w in want if not 0 <= w < 2 ** 64][0], show(k['v'])), signature='C06:unrepresentable_accepted', found_input=True,
+                                      theorem='unrepresentable_refused', replay={'check': 'timetag_range', 'case': k, 'expected_tags': [str(x) for x in want]}))
         if o.get('mutated'):
             c.failures.append(Failure('correspondence', 'building / predicting / clumping modified the caller\'s argument list %s' % show(k['v']),
                                       signature='C06:argument_mutated', found_input=True, replay={'check': 'mutated', 'case': k}))
@@ -1181,7 +1212,11 @@ def correspond(ctx):
     rcases = [{'kind': 'msg', 'v': [S('/x'), Fl(1e39)], 'itf': 'nrt'}, {'kind': 'msg', 'v': [S('/x'), I(1), Fl(-1e300)], 'itf': 'base'},
               {'kind': 'msg', 'v': [S('/x'), S('a\ud800')], 'itf': 'nrt'}, {'kind': 'msg', 'v': [S('/\udfff'), I(1)], 'itf': 'nrt'},
               {'kind': 'msg', 'v': [S('/x'), [S('/y'), Fl(1e39)]], 'itf': 'nrt'},
-              {'kind': 'bundle', 'v': [Fl(0.2), [S('/x'), S('\ud800')]], 'itf': 'base'}]
+              {'kind': 'bundle', 'v': [Fl(0.2), [S('/x'), S('\ud800')]], 'itf': 'base'},
+              {'kind': 'bundle', 'v': [Fl(float('inf')), [S('/x')]], 'itf': 'base'}, {'kind': 'bundle', 'v': [Fl(float('inf')), [S('/x')]], 'itf': 'nrt'},
+              {'kind': 'bundle', 'v': [Fl(float('nan')), [S('/x')]], 'itf': 'base'}, {'kind': 'bundle', 'v': [Fl(1e300), [S('/x')]], 'itf': 'nrt'}, {'kind': 'msg', 'v': [S('/x'), [Fl(float('inf')), [S('/y')]]], 'itf': 'base'},
+              {'kind': 'bundle', 'v': [Fl(1e10), [S('/x')]], 'itf': 'base'}, {'kind': 'bundle', 'v': [I(2 ** 40), [S('/x')]], 'itf': 'nrt'},
+              {'kind': 'bundle', 'v': [Fl(0.5), [Fl(1e10), [S('/x')]]], 'itf': 'base'}, {'kind': 'msg', 'v': [S('/d_recv'), Y(b'ab'), [Fl(1e10), [S('/y')]]], 'itf': 'base'}]
     rout = ctx.impl('c06_osc', {'cases': rcases})['out']
     for k, o in zip(rcases, rout):
         c.evaluations += 1
@@ -1517,6 +1552,27 @@ MV_SIGS = ('C06:size_prediction_below_real', 'C06:roundtrip', 'C06:library_parse
            'C06:clumped_plan_differs', 'C06:sync_plan_differs', 'C06:d_recv_choice_differs', 'C06:sendmsg_differs')
 
 
+def first_tag_diff(dec, exp, path='the bundle'):
+    """(where, decoded tag, expected tag) of the first time tag that differs between a decoded packet and the expectation"""
+    if exp[0] == 'bundle' and dec[0] == 'bundle':
+        if dec[1] != exp[1]:
+            return (path, dec[1], exp[1])
+        for j, (d, e) in enumerate(zip(dec[2], exp[2])):
+            r = first_tag_diff(d, e, 'the nested bundle at element %d of %s' % (j, path))
+            if r:
+                return r
+    elif exp[0] == 'msg' and dec[0] == 'msg':
+        for j, (d, e) in enumerate(zip(dec[2], exp[2])):
+            if e[0] == 'pkt' and d[0] == 'b':
+                try:
+                    r = first_tag_diff(osc10.decode(d[1]), e[1], 'the bundle sent as blob argument %d of %r' % (j, exp[1].decode('utf-8', 'replace')))
+                except osc10.Osc10Error:
+                    r = None
+                if r:
+                    return r
+    return None
+
+
 def nested_time_violation(dec, outer=None):
     """(outer, inner) time tags of a nested bundle earlier than its enclosing bundle, searched in a decoded packet and in its blobs"""
     if dec[0] == 'bundle':
@@ -1573,6 +1629,11 @@ def search(ctx, failures):
     for outer in (False, I(0), Fl(0.0), Fl(-0.0), Fl(0.5)):
         for inner in (None, Fl(-1.0)) + ((Fl(0.25),) if outer == Fl(0.5) else ()):
             cases.append({'kind': 'bundle', 'v': [outer, [S('/a')], [inner, [S('/b'), I(0)]]], 'send_time': 0.0, 'itf': 'base'})
+    for itf_, st_, cx_ in (('base', 0.0, 'main'), ('base', 1.5, 'main'), ('nrt', 1.5, 'routine'), ('nrt', 1.5, 'main')):
+        for v_, kind_ in (([Fl(0.5), [S('/a')], [Fl(0.75), [S('/b')]]], 'bundle'), ([I(1), [S('/a')], [I(1), [S('/b')], [Fl(2.5), [S('/c')]]]], 'bundle'),
+                          ([S('/x'), [Fl(0.5), [S('/y')], [Fl(1.0), [S('/z')]]]], 'msg'), ([Fl(0.25), [S('/d_recv'), Y(b'ab'), [Fl(0.5), [S('/s_new'), I(1)]]]], 'bundle'),
+                          ([Fl(-1.0), [S('/a')], [Fl(0.5), [S('/b')]]], 'bundle'), ([None, [S('/a')], [None, [S('/b')]]], 'bundle')):
+            cases.append({'kind': kind_, 'v': v_, 'send_time': st_, 'itf': itf_, 'ctx': cx_, 'valid': True})
     out = ctx.impl('c06_osc', {'cases': cases}, timeout=900)['out']
     for k, o in zip(cases, out):
         if 'build' not in o:
@@ -1604,7 +1665,9 @@ def search(ctx, failures):
         if has_noslash(v):
             continue
         try:
-            exp = expected_of(v, iter(o['tags']))
+            want = []
+            expected_tags(k.get('itf', 'nrt'), float(k.get('send_time', 0.0)), k['v'], want, k.get('ctx', 'main'))
+            exp = expected_of(v, iter(want))        # time tags from the oracle, not from the implementation
         except Exception:
             exp = None          # no expectation can be formed (unbalanced markers, unsupported objects): the bytes must still be OSC 1.0
         try:
@@ -1626,7 +1689,13 @@ def search(ctx, failures):
                 report('C06:nested_bundle_time', 'accepted for sending, but a nested bundle carries time tag %d, earlier than its enclosing bundle\'s %d (OSC 1.0; _check_subtime): %s'
                        % (bad[1], bad[0], show(k['v'])), {'probe': 'roundtrip', 'case': k, 'dgram': dgram.hex(), 'expected': 'refused (ValueError)',
                                                            'command': './check C06 --replay <this file>'}, 'bundle_roundtrip')
-        if not ok:
+        td = first_tag_diff(dec, exp) if (not ok and dec is not None) else None
+        if td:
+            report('C06:timetag', 'accepted for sending, but %s carries time tag %d instead of %d (send time %s, %s interface, called from %s): %s'
+                   % (td[0], td[1], td[2], k.get('send_time', 0.0), k.get('itf', 'nrt'), 'a routine' if k.get('ctx') == 'routine' else 'the main thread', show(k['v'])),
+                   {'probe': 'roundtrip', 'case': k, 'dgram': dgram.hex(), 'decoded_tag': str(td[1]), 'expected_tag': str(td[2]),
+                    'command': './check C06 --replay <this file>'}, 'bundle_roundtrip')
+        elif not ok:
             nul = has_nul_str(v)
             report('C06:nul_in_string_altered' if nul else 'C06:roundtrip',
                    'accepted for sending, but the datagram %s: %s -> %r' % (why, show(k['v']), dgram[:120]),
